@@ -104,6 +104,12 @@ func C04_Tokens(h *rt.H) {
 	k := h.Param("K", 4)
 	toks := []string{"[", "]", "{", "}", ":", ",", "1", `"a"`, "true", " "}
 	var in []byte
+	// PRE=1: the tokens follow an opening that puts the parser inside containers
+	// (after a member, after a comma, nested)
+	if h.Param("PRE", 0) == 1 {
+		ps := contextPrefixes(jsonCodec)
+		in = append(in, ps[h.Choose("prefix", 0, len(ps)-1)]...)
+	}
 	for i := 0; i < k; i++ {
 		in = append(in, toks[h.Choose("tok", 0, len(toks)-1)]...)
 	}
